@@ -29,8 +29,54 @@ struct Memo {
     }
 };
 
+// callables with inspectable, non-trivially-movable state (a moved-from std::string / std::vector is empty)
+struct Keeper2 {
+    std::string name = std::string(40, 'k');
+    std::vector<int> data{ 1, 2, 3 };
+    void operator()(const std::string &, int) const { }
+};
+struct Keeper1 {
+    std::string name = std::string(40, 'q');
+    void operator()(int) const { }
+};
+struct Receiver {
+    std::string tag = std::string(40, 'r');
+    int hits = 0;
+    void slot(const std::string &, int) { ++hits; }
+};
+
 int main()
 {
+    // ---- the adapting connect (bound leading arguments, callables that take fewer arguments than are emitted) -------------------
+    {
+        Signal<int> s;
+        Signal<int, int> s2;
+        Keeper2 k2;                                  // l-value callable, two parameters: one bound, one emitted
+        std::string boundText(40, 'b');              // l-value bound argument with heap state
+        auto h1 = s.connect(k2, boundText);
+        Keeper1 k1;                                  // l-value callable that takes fewer arguments than the signal emits
+        auto h2 = s2.connect(k1);
+        std::function<void(const std::string &, int)> sf2 = [text = std::string(40, 'f')](const std::string &, int) { (void)text; };
+        std::string boundText2(40, 'c');
+        auto h3 = s.connect(sf2, boundText2);        // l-value std::function + l-value bound argument
+        Receiver r;
+        std::string boundText3(40, 'd');
+        auto h4 = s.connect(&Receiver::slot, &r, boundText3);   // member function, object pointer, l-value bound argument
+        s.emit(1);
+        s2.emit(1, 2);
+        CHECK(k2.name == std::string(40, 'k') && k2.data.size() == 3, "connect(callable, bound...): the caller's l-value callable keeps its state");
+        CHECK(boundText == std::string(40, 'b'), "connect(callable, bound...): the caller's l-value bound argument keeps its value");
+        CHECK(k1.name == std::string(40, 'q'), "connect(callable taking fewer arguments): the caller's l-value callable keeps its state");
+        CHECK(bool(sf2), "connect(std::function, bound...): the caller's l-value std::function is still callable");
+        CHECK(boundText2 == std::string(40, 'c'), "connect(std::function, bound...): the caller's l-value bound argument keeps its value");
+        CHECK(boundText3 == std::string(40, 'd') && r.tag == std::string(40, 'r') && r.hits == 1,
+              "connect(member function, object, bound...): object and l-value bound argument intact, slot reached once");
+        // and they remain fully usable: a second connection made from the same l-values behaves like the first
+        auto h5 = s.connect(k2, boundText);
+        s.emit(2);
+        CHECK(k2.data.size() == 3 && boundText.size() == 40 && r.hits == 2, "connect(callable, bound...): second use of the same l-values");
+        h1.release(); h2.release(); h3.release(); h4.release(); h5.release();
+    }
     // ---- connect flavours -----------------------------------------------------------------------------
     {
         std::vector<int> cap{ 1, 2, 3 };
